@@ -11,6 +11,10 @@ ground energy, weights, averages, per-state lookups and <c^+_i c_j> for ALL inde
 Independently of the model the property is evaluated on the implementation's own output (finite, >= 0, sum 1,
 ratio form from the dumped energies, ground = min, offset invariance) and against the full-space oracle
 (driver_ed: Tr(rho O) with Jordan-Wigner matrices rotated by the assembled eigenvectors).
+EnsembleAverage objects are value objects with a user-written copy constructor: for every index pair the result is read from
+the object itself (AVG), after a second prepare() (AVGAGAIN), from a copy of the prepared object (AVGCOPY), from a copy of that
+copy after prepare() (AVGCOPY2) and from a copy taken before prepare() and prepared afterwards (AVGCOPY0); all five are held to
+the trace.
 """
 import math
 import concurrent.futures as cf
@@ -22,7 +26,11 @@ BETAS = [1e-3, 1e-2, 1e-1, 1.0, 1e1, 1e2, 1e3]
 BIG = 1048576          # 2^20: dyadic, so the offset itself is exact
 EPSM = 2.220446049250313e-16
 STATS = {"model_comparisons": 0, "oracle_comparisons": 0, "offset_comparisons": 0, "max_offset_deviation_over_beta_offset_eps": 0.0,
-         "certificate_too_large": 0, "avg_pairs_compared": 0}
+         "certificate_too_large": 0, "avg_pairs_compared": 0, "avg_copies_compared": 0}
+# records of the h_ed `avg` query that are read from COPIES of EnsembleAverage objects (same layout as AVG / AVGAGAIN)
+COPY_RECORDS = [("AVGCOPY", "a copy of a prepared EnsembleAverage object (copy constructor, no further call)"),
+                ("AVGCOPY2", "a copy of a copy of a prepared EnsembleAverage object after prepare() on it"),
+                ("AVGCOPY0", "a copy taken of an EnsembleAverage object before prepare(), prepared afterwards")]
 
 
 def fmt(x):
@@ -257,6 +265,21 @@ def analyse(chk, job, r, model, base_weights):
             zi = complex(float.fromhex(t[3]), float.fromhex(t[4]))
             if k in oavg and (isbad(zi.real) or abs(zi - oavg[k]) > 1e-9):
                 spec.append("<c^+_%d c_%d> read from an EnsembleAverage object after a second prepare() = %r but Tr(rho c^+ c) = %r" % (k[0], k[1], zi, oavg[k]))
+        # copies of EnsembleAverage objects (the class has a user-written copy constructor; std::vector<EnsembleAverage> and pass by
+        # value go through it): the value read from a copy is held to the trace exactly as the original's is
+        ncopy = {}
+        for rtag, how in COPY_RECORDS:
+            for t in r.get("impl", rtag):
+                k = (int(t[1]), int(t[2]))
+                zi = complex(float.fromhex(t[3]), float.fromhex(t[4]))
+                ncopy[rtag] = ncopy.get(rtag, 0) + 1
+                if k in oavg and (isbad(zi.real) or isbad(zi.imag) or abs(zi - oavg[k]) > 1e-9):
+                    spec.append("<c^+_%d c_%d> read from %s = %r but Tr(rho c^+ c) = %r" % (k[0], k[1], how, zi, oavg[k]))
+        navg = len(r.get("impl", "AVG"))
+        STATS["avg_copies_compared"] += sum(ncopy.values())
+        for rtag, how in COPY_RECORDS:
+            if navg and ncopy.get(rtag, 0) != navg:
+                chk.tie_broken("h_ed avg query", "%s: %d AVG records but %d %s records" % (tag, navg, ncopy.get(rtag, 0), rtag))
     elif not cert_ok:
         STATS["certificate_too_large"] += 1
         chk.notes.append("%s: eigen-decomposition certificate %r too large for the oracle comparison" % (tag, r.cert))
@@ -372,7 +395,8 @@ def run(chk):
                            "problems": problems, "harness": "h_ed", "queries": ["dm", "avg i j for all pairs"]})
     chk.rule = ("one random instance per family of tools/scen.py (9 families incl. pairing and spinless with symmetries ignored; 4 in the thorough tier), "
                 "each at beta = 1e-3..1e3 without offset and at beta in {1e-3, 1, 1e3} (all seven in the thorough tier) with a constant +-2^20 added to H "
-                "and with a level -+2^20 on every site; per run: dm query, <c^+_i c_j> for all index pairs; distinct = distinct scenario text; "
+                "and with a level -+2^20 on every site; per run: dm query, <c^+_i c_j> for all index pairs, each read from the object, after a second "
+                "prepare(), from a copy of the prepared object, from a prepared copy of that copy and from a copy made before prepare(); distinct = distinct scenario text; "
                 "non-trivial = more than one block")
     chk.extra["runs"] = len(jobs)
     chk.extra["comparisons"] = dict(STATS)
